@@ -166,10 +166,11 @@ func extractLogLine(p *pkgs, f *facts) {
 		f.miss = append(f.miss, "Client.Start:stdout-scanner")
 	}
 
-	// ---- logStderr: every `return` sits in the switch that directly follows `… := reader.ReadLine()`; no goto / labelled break
+	// ---- logStderr: every `return` sits in the switch — or, the same thing in the normal form of normalize.go, the
+	// if/else chain — that directly follows `… := reader.ReadLine()`; no goto / labelled break
 	endsOnRead := false
 	if ls := p.fn("Client", "logStderr"); ls != nil {
-		var sw *ast.SwitchStmt
+		var sw ast.Stmt
 		ast.Inspect(ls.Body, func(n ast.Node) bool {
 			fs, ok := n.(*ast.ForStmt)
 			if !ok || sw != nil {
@@ -177,7 +178,10 @@ func extractLogLine(p *pkgs, f *facts) {
 			}
 			for i, st := range fs.Body.List {
 				if as, ok := st.(*ast.AssignStmt); ok && len(as.Rhs) == 1 && strings.HasSuffix(exprString(as.Rhs[0]), ".ReadLine()") && i+1 < len(fs.Body.List) {
-					if x, ok := fs.Body.List[i+1].(*ast.SwitchStmt); ok {
+					switch x := fs.Body.List[i+1].(type) {
+					case *ast.SwitchStmt:
+						sw = x
+					case *ast.IfStmt:
 						sw = x
 					}
 				}
@@ -198,8 +202,9 @@ func extractLogLine(p *pkgs, f *facts) {
 					if x.Tok.String() == "goto" || (x.Tok.String() == "break" && x.Label != nil) {
 						endsOnRead = false
 					}
-					if x.Tok.String() == "break" && x.Label == nil && !(x.Pos() > sw.Pos() && x.End() < sw.End()) {
-						// an unlabelled break outside the read-error switch: only harmless inside another switch/select
+					_, swIsSwitch := sw.(*ast.SwitchStmt)
+					if x.Tok.String() == "break" && x.Label == nil && !(swIsSwitch && x.Pos() > sw.Pos() && x.End() < sw.End()) {
+						// an unlabelled break that does not leave the read-error switch itself: only harmless inside another switch/select
 						endsOnRead = endsOnRead && insideInnerSwitch(ls.Body, x)
 					}
 				case *ast.CallExpr:
